@@ -250,7 +250,7 @@ def check(prop, tier):
         "from_cache": r.get("cached", False),
         "collection_wall_s": stats["wall"],
     }
-    common.write_evidence(prop, tier, "model_checking", cov, time.time() - t0, len(new),
+    common.write_evidence(prop, tier, "exploration" if prop == "C19" else "model_checking", cov, time.time() - t0, len(new),
                           ["TLC/SANY and the CommunityModules Json/IOUtils modules", "harness/abstraction.py (token -> tuple) and harness/hooks.py (add-only wrappers) report what happened faithfully",
                            "docs/*_rules.rst is the source of truth for what a rule is documented to do", "rule bodies and the classifier are covered on the explored executions only"])
     return rc
